@@ -153,7 +153,7 @@ def run(ctx):
         g0 = check_render(ctx, h, doc, "default", None)
         return
     feats = {"cond": ch.coin(3, 4, "f-cond"), "loop": ch.coin(3, 4, "f-loop"), "cfg": ch.coin(3, 4, "f-cfg"),
-             "calls": True, "poly": ch.coin(1, 2, "f-poly"), "meta": ch.coin(3, 4, "f-meta")}
+             "calls": True, "poly": ch.coin(1, 2, "f-poly"), "meta": ch.coin(3, 4, "f-meta"), "insert": ch.coin(1, 3, "f-insert")}
     try:
         sim = BuilderSim(ctx, features=feats, max_steps=10 + ch.draw(45, "max-steps"))
         ctx.profile = {"root": sim.root_kind, **feats}
